@@ -18,6 +18,7 @@ fn l_out_key() -> Layout { use KeyCode::*; Layout { mappings: vec![m(&[B], &[D],
 fn l_edge() -> Layout { use KeyCode::*; Layout { mappings: vec![m(&[B], &[B], Repeat::Special { keys: vec![C], delay_ms: 0, interval_ms: 1 }), m(&[A], &[A], Repeat::Special { keys: vec![LEFTSHIFT, C], delay_ms: 1, interval_ms: 2147483 })] } }
 // outputs with key codes at and above 562 (the virtual keyboard registers key bits 1..562 only), alone and mixed with ordinary keys
 fn l_highcodes() -> Layout { use KeyCode::*; Layout { mappings: vec![m(&[A], &[LEFTSHIFT, RIGHT_UP], Repeat::Normal), m(&[A, B], &[KBDINPUTASSIST_PREV], Repeat::Normal), m(&[C], &[RIGHT_DOWN], Repeat::Disabled)] } }
+fn l_edge_neg() -> Layout { use KeyCode::*; Layout { mappings: vec![m(&[B], &[B], Repeat::Special { keys: vec![C], delay_ms: -1, interval_ms: 30 }), m(&[A], &[A], Repeat::Special { keys: vec![C], delay_ms: i32::MAX, interval_ms: i32::MIN })] } }
 fn l_chord() -> Layout { use KeyCode::*; Layout { mappings: vec![m(&[CAPSLOCK], &[], Repeat::Normal), m(&[CAPSLOCK, J], &[LEFT], Repeat::Normal)] } }
 fn l_two_repeats() -> Layout {
   use KeyCode::*;
@@ -72,6 +73,7 @@ fn families(id: &str, tier: Tier) -> Vec<BFamily<'static>> {
       { let mut cl = cfg(&[A, B, LEFTCTRL], if q { 5 } else { 6 }, 0, 0, 3, 30); cl.single_event_wakeups = true;
         add("repeat layout over {A,B,LEFTCTRL}: histories up to 5 (6) events, one per wake-up, up to 3 time-outs", l_repeat(), cl); }
       add("numeric edge: B->B Special{[C],0,1} (zero delay, 1 ms interval) over {B,A}", l_edge(), cfg(&[B, A], if q { 3 } else { 4 }, 0, if q { 1 } else { 1 }, if q { 4 } else { 6 }, 1));
+      add("numeric edge: negative and extreme delay / interval values over {A,B}", l_edge_neg(), cfg(&[A, B], if q { 3 } else { 4 }, 0, if q { 0 } else { 1 }, 2, 30));
       add("three Special mappings (chords [LEFTCTRL,C], [C,LEFTCTRL,B], []) over {B,J,K}", l_two_repeats(), cfg(&[B, J, K], if q { 4 } else { 5 }, 0, if q { 0 } else { 1 }, if q { 3 } else { 3 }, 10));
       if !q { add("super-dvorak repeat keys over {K,J,LEFTCTRL}", l_super_dvorak(), cfg(&[K, J, LEFTCTRL], 4, 0, 1, 4, 30)); }
     }
